@@ -266,7 +266,8 @@ def ob_handlers(run, interp):
             conds = []
             name_t = z3.String("name")
             chan = n["chan"]
-            if r.outcome == "raise":
+            if r.outcome == "raise" and not (isinstance(r.exc, EOFError) and chan.closed):
+                # (end-of-stream after the peer's own close request ended this very connection is the expected outcome)
                 bad = "%s escaped the dispatcher" % type(r.exc).__name__
             if Sinks.log:
                 bad = bad or "reached %s under the default configuration" % (Sinks.log,)
@@ -428,6 +429,186 @@ if log:
     return ob
 
 
+# ---------------------------------------------------------------------------
+FORGED = ["builtins.str", "builtins.bytes", "enum.StrEnum", "builtins.int"]
+SHAPES4 = ["(obj, fname)", "(obj, fname, (), ())", "(obj, obj, fname)", "(obj, fname, value)"]
+LIES = [False, True, "_private"]
+INSPECT_LIE = ("__radd__", "__add__", "startswith", "__hash__", "__eq__", "__str__", "decode", "__contains__", "__len__", "__iter__")
+MAX_NESTED = 10
+
+
+class LyingPeer(object):
+    """the hostile peer while the victim handles its request: every nested request the victim makes (because the
+    peer handed it a *proxy* where a name was expected) is answered with a lie of the peer's choosing"""
+
+    def __init__(self, c):
+        self.c = c
+        self.chan = None
+        self.lies = []
+
+    def on_frame(self, frame):
+        from rpyc.core import consts, brine
+        # operations on a proxy that CPython itself dispatches (isinstance, operators, hashing) run natively and
+        # arrive as real brine bytes; interpreted ones arrive under the identity codec: answer in kind
+        raw = not isinstance(frame, l2.Frame)
+        kind, seq, args = brine.load(bytes(frame)) if raw else frame.obj
+        wrap = brine.dump if raw else l2.Frame
+        if kind != consts.MSG_REQUEST:
+            return
+        handler = args[0]
+        if handler == consts.HANDLE_DEL:
+            return
+        if len(self.lies) >= MAX_NESTED:
+            self.c.assume(False)
+        if handler == consts.HANDLE_INSPECT:
+            ans, lie = (consts.LABEL_VALUE, tuple((m, None) for m in INSPECT_LIE)), "methods"
+        elif handler == consts.HANDLE_GETATTR:
+            ans, lie = (consts.LABEL_REMOTE_REF, ("builtins.function", 9001, 9002)), "callable"
+        elif handler in (consts.HANDLE_CALL, consts.HANDLE_CALLATTR, consts.HANDLE_STR, consts.HANDLE_REPR):
+            lie = LIES[self.c.choose(len(LIES), "lie")]
+            ans = (consts.LABEL_VALUE, lie)
+        elif handler == consts.HANDLE_HASH:
+            ans, lie = (consts.LABEL_VALUE, 5), 5
+        elif handler == consts.HANDLE_CMP:
+            ans, lie = (consts.LABEL_VALUE, False), False
+        else:
+            ans, lie = None, "refuse"
+        self.lies.append((handler, lie))
+        if ans is None:
+            self.chan.inbox.append(wrap((consts.MSG_EXCEPTION, seq, (("builtins", "ValueError"), ("no",), (), "tb"))))
+        else:
+            self.chan.inbox.append(wrap((consts.MSG_REPLY, seq, ans)))
+
+
+def ob_forged_names(run, interp):
+    """the peer passes, where a name / operator is expected, a reference to an object of its own whose reported class
+    it chooses (str, bytes, a str subclass ...) and answers the victim's questions about it with lies"""
+    from rpyc.core.protocol import Connection, DEFAULT_CONFIG
+    from rpyc.core import consts
+    from rpyc.lib import get_id_pack
+    safe = DEFAULT_CONFIG["safe_attrs"]
+    prefix = DEFAULT_CONFIG["exposed_prefix"]
+
+    def ob(o):
+        o.symbolic = ["handler number: Int (any)", "argument shape: %d shapes with a forged proxy in the name position" % len(SHAPES4),
+                      "class reported for the forged proxy: %s" % FORGED,
+                      "the peer's answer to each nested request (<= %d): exhaustive over %r for call-like requests" % (MAX_NESTED, LIES)]
+        o.bounds = {"nested_requests": MAX_NESTED}
+        acc = Acc()
+
+        def harness(c):
+            l2.install_identity_codec(interp)
+            install_sinks(interp)
+            clk = l2.install_clock(interp)
+            peer = LyingPeer(c)
+            chan = l2.ListChannel(interp, clk, peer)
+            peer.chan = chan
+            conn = l2.make_conn(chan)
+            spy = Spy()
+            ids = get_id_pack(spy)
+            conn._local_objects.add(ids, spy)
+            hid = SymInt(c.fresh_int("handler"))
+            shape = SHAPES4[c.choose(len(SHAPES4), "args")]
+            forged = FORGED[c.choose(len(FORGED), "forged-class")]
+            R = (consts.LABEL_LOCAL_REF, ids)
+            F = (consts.LABEL_REMOTE_REF, (forged, 424242, 434343))
+            E = (consts.LABEL_VALUE, ())
+            table = {"(obj, fname)": (R, F), "(obj, fname, (), ())": (R, F, E, E), "(obj, obj, fname)": (R, R, F), "(obj, fname, value)": (R, F, (consts.LABEL_VALUE, 5))}
+            c.notes.update(conn=conn, chan=chan, peer=peer, shape=shape, hid=hid, forged=forged)
+            try:
+                return interp.call(Connection._dispatch_request, (conn, 7, (hid, (consts.LABEL_TUPLE, table[shape]))))
+            finally:
+                l2.retire(conn)
+
+        def on_path(r):
+            c = r.ctx
+            if r.outcome == "abort" or "hid" not in c.notes:
+                return
+            n = c.notes
+            acc.inc("shape:" + n["shape"])
+            acc.inc("forged:" + n["forged"])
+            bad = None
+            if r.outcome == "raise" and not (isinstance(r.exc, EOFError) and n["chan"].closed):
+                bad = "%s escaped the dispatcher" % type(r.exc).__name__
+            if Sinks.log:
+                bad = bad or "reached %s under the default configuration" % (Sinks.log,)
+            for e in c.log:
+                if e[0] in ("setattr", "delattr"):
+                    bad = bad or "%s under the default configuration" % e[0]
+                elif e[0] in ("getattr", "call"):
+                    t = e[2]
+                    if type(t) is not str:
+                        bad = bad or "attribute touched under a non-text name %r" % (type(t).__name__,)
+                    elif e[0] == "getattr" and t in INTROSPECTION:
+                        continue
+                    elif not (t.startswith(prefix) or t in safe):
+                        bad = bad or "attribute %r, which the default policy denies, was %s" % (t, "read" if e[0] == "getattr" else "called")
+            if len(o.samples) < 6 and n["peer"].lies:
+                o.samples.append({"args": n["shape"], "forged": n["forged"], "nested": [str(x) for x in n["peer"].lies][:6]})
+            if bad and len(o.violations) < 3:
+                m = c.check_model()
+                if m is None:
+                    return
+                hv = m.eval(n["hid"].e, model_completion=True).as_long()
+                sig = "forged:%d:%s" % (hv, n["forged"])
+                if any(v["signature"] == sig for v in o.violations):
+                    return
+                run.replay(o, sig, "%s (handler %d, args %s, reported class %s, lies %s)" % (bad, hv, n["shape"], n["forged"], n["peer"].lies),
+                           replay_forged(hv, n["shape"], n["forged"], [l for (_h, l) in n["peer"].lies]))
+
+        n_, incomplete = par_explore(run, o, harness, on_path, acc, split_depth=5)
+        o.paths = dict(acc.counts, total=n_)
+        if incomplete:
+            o.verdict = "inconclusive"
+            o.detail = incomplete
+        for k in ["shape:" + x for x in SHAPES4] + ["forged:" + x for x in FORGED]:
+            if not acc.counts.get(k):
+                raise core.HarnessError("reachability twin: %s never completed (%s)" % (k, acc.counts))
+    return ob
+
+
+def replay_forged(hid, shape, forged, lies):
+    return REPLAY_HEAD + """
+hid, shape, forged, lies = %d, %r, %r, %r
+INSPECT_LIE = %r
+class LyingChan(Chan):
+    # the hostile peer: answers every nested request of the victim with the recorded lies
+    def send(self, d):
+        kind, seq, args = brine.load(bytes(d))
+        if kind != consts.MSG_REQUEST:
+            self.frames.append(bytes(d)); return
+        h = args[0]
+        if h == consts.HANDLE_DEL: return
+        lie = lies.pop(0) if lies else "refuse"
+        if lie == "methods": ans = (consts.LABEL_VALUE, tuple((m, None) for m in INSPECT_LIE))
+        elif lie == "callable": ans = (consts.LABEL_REMOTE_REF, ("builtins.function", 9001, 9002))
+        elif lie == "refuse": ans = None
+        else: ans = (consts.LABEL_VALUE, lie)
+        if ans is None: self.inbox.append(brine.dump((consts.MSG_EXCEPTION, seq, (("builtins", "ValueError"), ("no",), (), "tb"))))
+        else: self.inbox.append(brine.dump((consts.MSG_REPLY, seq, ans)))
+ch = LyingChan()
+conn = Connection(VoidService(), ch)
+s = Secret(); ids = get_id_pack(s); conn._local_objects.add(ids, s)
+R = (consts.LABEL_LOCAL_REF, ids); F = (consts.LABEL_REMOTE_REF, (forged, 424242, 434343)); E = (consts.LABEL_VALUE, ())
+table = {"(obj, fname)": (R, F), "(obj, fname, (), ())": (R, F, E, E), "(obj, obj, fname)": (R, R, F), "(obj, fname, value)": (R, F, (consts.LABEL_VALUE, 5))}
+bad = []
+try:
+    conn._dispatch_request(7, (hid, (consts.LABEL_TUPLE, table[shape])))
+except BaseException as e:
+    bad.append("escaped: %%r" %% (e,))
+allowed = lambda n: n.startswith("exposed_") or n in conn._config["safe_attrs"]
+for (kind, n) in touched:
+    if kind in ("set", "del"): bad.append("%%s %%s under default config" %% (kind, n))
+    elif not allowed(n): bad.append("%%s %%s denied by the default policy" %% (kind, n))
+conn._closed = True
+print(bad)
+if bad:
+    print("REPRODUCED"); sys.exit(1)
+""" % (hid, shape, forged, lies, INSPECT_LIE)
+
+
+
+
 def main():
     core.INCREMENTAL = False        # path conditions contain z3 strings
     run = Run("C07", level="other")
@@ -440,6 +621,8 @@ def main():
     run.obligation("O2_handlers_default_policy", "any handler number with any argument shape: touches obey the default policy; no pickle/import/eval; one response; nothing else altered",
                    ob_handlers(run, interp))
     run.obligation("O3_message_kinds", "any message kind with crafted payloads: no import / eval; never kills the process", ob_dispatch_kinds(run, interp))
+    run.obligation("O4_forged_name_proxies", "a proxy with a peer-chosen class in the name position, nested questions answered with lies: touches still obey the default policy",
+                   ob_forged_names(run, interp))
     run.note_encoded(interp)
     sys.exit(run.finish())
 
